@@ -63,6 +63,10 @@ var c20Pool = []c20Line{
 	{"{ " + bn.KwPrint + " \"a\"; " + bn.KwBreak + "; }", "runtime", ""},
 	{bn.KwFun + " sb() { " + bn.KwBreak + "; } " + bn.KwPrint + " 1; sb(); " + bn.KwPrint + " 2;", "runtime", ""},
 	{bn.KwPrint + " 1; " + bn.KwPrint + " 2; 3;", "ok", ""},
+	// shifts by negative counts, ordinary and exact 64-bit
+	{bn.KwPrint + " 1 << -1;", "runtime", ""},
+	{bn.KwVar + " n = (1 << 63) | 1; " + bn.KwPrint + " n << n;", "runtime", ""},
+	{bn.KwPrint + " ((1 << 62) | 1) >> (~(1 << 62));", "runtime", ""},
 	// comparisons of empty containers, literal and held in a variable
 	{"[] == [];", "echo", bn.KwPrint + " [] == [];"},
 	{bn.KwVar + " e = []; e != e;", "echo", bn.KwVar + " e = []; " + bn.KwPrint + " e != e;"},
